@@ -46,6 +46,11 @@ Definition chk_byteeq : checker := fun a b =>
 Definition chk_panic : checker := fun a b =>
   da <- read_all a ;; db <- read_all b ;;
   Mark 1 [da; db] (Ret (if bytes_eqb da db then Ok tt else Panic)).
+(** a checker that reports a mismatch with an error of kind NotFound (the kind populate
+    uses for "no such value"): a checker's verdict must reach the caller whatever its kind *)
+Definition chk_count_nf : checker := fun a b =>
+  da <- read_all a ;; db <- read_all b ;;
+  Mark 1 [da; db] (Ret (if negb (bytes_eqb da db) then Err (Custom CNotFound) else Ok tt)).
 Definition chk_count (fail : bool) : checker := fun a b =>
   da <- read_all a ;; db <- read_all b ;;
   Mark 1 [da; db] (Ret (if (fail && negb (bytes_eqb da db))%bool then Err (Custom CMismatch) else Ok tt)).
